@@ -673,7 +673,7 @@ fn run_hosted_send(sr: u32, ctx: &mut Ctx) {
 
 /// a delay on a main / sub / nested / nested-under-spatial track of a manager whose device rate changes before the
 /// impulse: the echoes come after delay_time seconds at the rate in force
-fn run_hosted_rate_change(ctx: &mut Ctx) {
+fn run_hosted_rate_change(ctx: &mut Ctx, pre: bool) {
 	use crate::rig;
 	use kira::sound::{Sound, SoundData};
 	use kira::track::{MainTrackBuilder, SpatialTrackBuilder, TrackBuilder};
@@ -706,11 +706,13 @@ fn run_hosted_rate_change(ctx: &mut Ctx) {
 			ctx.evals += 1;
 			let d = ((us as f64 * 1e-6 * r2 as f64).round() as usize).max(1);
 			let detail = format!(
-				"DelayBuilder delay_time={} us feedback=-6 dB mix=1 on {}; manager started at {} Hz, 2 callbacks, on_change_sample_rate({}), 1 callback, then an impulse (0.5, -0.25); expected echoes every {} frames",
+				"DelayBuilder delay_time={} us feedback=-6 dB mix=1 on {}; manager started at {} Hz, {}2 callbacks, on_change_sample_rate({}), 1 callback, {}; expected echoes every {} frames",
 				us,
 				["the main track", "a sub-track", "a nested sub-track (depth 2)", "a nested sub-track (depth 3)", "a plain track nested under a spatial track"][host],
 				r1,
+				if pre { "an impulse (0.5, -0.25) at the start of " } else { "" },
 				r2,
+				if pre { "no further input" } else { "then an impulse (0.5, -0.25)" },
 				d
 			);
 			let r = catch(|| -> Result<Vec<S2>, String> {
@@ -752,12 +754,15 @@ fn run_hosted_rate_change(ctx: &mut Ctx) {
 					}
 				}
 				let mut sink = vec![];
+				fire.store(pre, Ordering::SeqCst);
 				for _ in 0..2 {
 					rig::render_stereo(&mut m, N, &mut sink);
 				}
 				m.backend_mut().renderer.as_mut().unwrap().on_change_sample_rate(r2);
-				rig::render_stereo(&mut m, N, &mut sink);
-				fire.store(true, Ordering::SeqCst);
+				if !pre {
+					rig::render_stereo(&mut m, N, &mut sink);
+				}
+				fire.store(!pre, Ordering::SeqCst);
 				let mut out: Vec<(f32, f32)> = vec![];
 				let total = (4 * d + 2 * N).max(8 * N);
 				while out.len() < total {
@@ -777,6 +782,29 @@ fn run_hosted_rate_change(ctx: &mut Ctx) {
 					continue;
 				}
 			};
+			if pre {
+				// the impulse entered 2*N frames (at the old rate) before the change: whatever comes out afterwards is an echo, so it sits at a whole
+				// multiple of the delay time after the impulse (to within a frame of either rate), and echo k is no louder than the feedback gain allows
+				let t0 = 2.0 * N as f64 / r1 as f64;
+				let tol = 1.5 / r1.min(r2) as f64;
+				let dsec = us as f64 * 1e-6;
+				ctx.nontrivial_extra += 1;
+				for (j, f) in y.iter().enumerate() {
+					if f[0].abs() < 1e-6 && f[1].abs() < 1e-6 {
+						continue;
+					}
+					let t = t0 + j as f64 / r2 as f64;
+					let k = (t / dsec).round();
+					if (t - k * dsec).abs() > tol || k < 1.0 || (f[0].abs() as f64) > 0.5 * 0.5012f64.powf(k - 1.0) * 1.001 {
+						ctx.fail(
+							format!("delay: audio that was in the line when the device rate changed comes back at a time that is no multiple of the delay time (or louder than its echo number allows) :: hosted on {}", ["the main track", "a sub-track", "a nested track", "a nested track", "a track nested under a spatial track"][host]),
+							format!("{}; frame {} after the change = {:.4} ms after the impulse: ({:e}, {:e})", detail, j, t * 1e3, f[0], f[1]),
+						);
+						break;
+					}
+				}
+				continue;
+			}
 			let mut x = vec![[0.0f32; 2]; y.len()];
 			x[0] = [0.5, -0.25];
 			note(ctx, &x, &y);
@@ -794,7 +822,8 @@ fn run_hosted_rate_change(ctx: &mut Ctx) {
 fn run_delay(tier: Tier, sr: u32, ctx: &mut Ctx) {
 	if sr == 48000 && !via() {
 		run_hosted_send(sr, ctx);
-		run_hosted_rate_change(ctx);
+		run_hosted_rate_change(ctx, false);
+		run_hosted_rate_change(ctx, true);
 	}
 	let times_us: &[u64] = tier.pick(&[10, 1000, 2500, 9000], &[10, 1000, 2500, 9000, 22_675, 100_000, 250_250]);
 	for &us in times_us {
@@ -1393,6 +1422,57 @@ fn run_gain(tier: Tier, ctx: &mut Ctx) {
 			});
 			if let Err(p) = r {
 				ctx.fail(format!("panic: {} :: volume control fade", p), detail);
+			}
+		}
+	}
+	// a panning sweep: equal power holds at every frame of every block while the panning moves, not only at rest
+	for &(from, to) in &[(-1.0f32, 1.0f32), (1.0, -1.0), (0.0, 1.0), (-0.5, 0.25)] {
+		for &ms in &[10u64, 3, 40] {
+			ctx.evals += 1;
+			let detail = format!("PanningControlBuilder(Panning({})), set_panning({}, linear tween of {} ms) before the first block; 48000 Hz, blocks of {} frames, constant input (0.5, 0.5)", from, to, ms, IBS);
+			let r = catch(|| {
+				let (mut e, mut h) = PanningControlBuilder(Value::Fixed(Panning(from))).build();
+				e.init(48000, IBS);
+				let info = MockInfoBuilder::new().build();
+				let dt = 1.0 / 48000.0;
+				h.set_panning(Panning(to), kira::Tween { start_time: kira::StartTime::Immediate, duration: Duration::from_millis(ms), easing: kira::Easing::Linear });
+				let dur = ms as f64 / 1000.0;
+				let nblocks = (dur * 48000.0 / IBS as f64).ceil() as usize + 3;
+				let mut prev_r = f64::NAN;
+				let mut moved = false;
+				for b in 0..nblocks {
+					let mut buf = [Frame::new(0.5, 0.5); IBS];
+					e.on_start_processing();
+					e.process(&mut buf, dt, &info);
+					for (i, f) in buf.iter().enumerate() {
+						let (l, rr) = (f.left as f64 / 0.5, f.right as f64 / 0.5);
+						if (l * l + rr * rr - 2.0).abs() > 1e-5 {
+							ctx.fail(
+								"panning control: equal-power law violated during a sweep: left^2 + right^2 gain is not constant (2 = unity at the centre)",
+								format!("{}; block {} frame {}: gains left {} right {} (sum of squares {})", detail, b, i, l, rr, l * l + rr * rr),
+							);
+							return;
+						}
+						if !prev_r.is_nan() && ((to > from && rr < prev_r - 1e-6) || (to < from && rr > prev_r + 1e-6)) {
+							ctx.fail(
+								"panning control: the right gain does not move monotonically during a one-way sweep",
+								format!("{}; block {} frame {}: right gain {} after {}", detail, b, i, rr, prev_r),
+							);
+							return;
+						}
+						moved |= !prev_r.is_nan() && rr != prev_r;
+						prev_r = rr;
+					}
+				}
+				let want = Frame::new(1.0, 1.0).panned(Panning(to));
+				if (prev_r - want.right as f64).abs() > 1e-6 {
+					ctx.fail("panning control: a sweep does not end at the requested panning", format!("{}: final right gain {}, expected {}", detail, prev_r, want.right));
+					return;
+				}
+				ctx.nontrivial_extra += moved as u64;
+			});
+			if let Err(p) = r {
+				ctx.fail(format!("panic: {} :: panning control sweep", p), detail);
 			}
 		}
 	}
